@@ -30,6 +30,18 @@ def published(a):
     if a.op in ("Gt", "Ge") and is_push_index(a.a): return True
     return False
 
+def published_strict(range_ends=()):
+    """a slot index i is published iff i < push_index (strict); the exclusive END of a range iff end <= push_index.
+    range_ends: origins that are range ends (bulk_pop's copy_to_bulk end argument and its phi alternatives)"""
+    def p(a):
+        if a.kind != "cmp": return False
+        if a.op == "Lt" and is_push_index(a.b): return True
+        if a.op == "Gt" and is_push_index(a.a): return True
+        if a.op == "Le" and is_push_index(a.b) and simplify(a.a) in range_ends: return True
+        if a.op == "Ge" and is_push_index(a.a) and simplify(a.b) in range_ends: return True
+        return False
+    return p
+
 # "account n slots as read": the helper BlockNode::mark_slots_read, or its one primitive performed directly (`used.fetch_sub(n) == n`)
 MARK_PRIM = Call(A("fetch_sub"), on=Q + "::BlockNode.used", transitive=False)
 MARK = AnyEv(Call(re.escape(Q) + "::BlockNode::mark_slots_read", transitive=False), MARK_PRIM, transitive=False)
@@ -47,6 +59,193 @@ def last_reader_edge(a):
     if a.kind == "cmp" and a.op == "Eq":
         return any(is_call_result(A("fetch_sub"))(x) for x in (a.a, a.b))
     return False
+
+# ------------------------------------------------------------------------------------------------
+# the head word of the spmc queue: (block pointer | slot id), bit 63 = "head transition in progress" lock
+
+def _strip(o):
+    o = simplify(o)
+    while o[0] == "cast" or (o[0] == "field" and o[2] == "(tuple)" and simplify(o[1])[0] == "bin" and "WithOverflow" in simplify(o[1])[1]):
+        o = simplify(o[1])
+    return o
+
+_CUR_F = [None]
+def _unpack_field(o, idx):
+    return shared._w_unpack_field(o, idx, "spmc::BlockPtr::unpack", _CUR_F[0])
+
+def _is_lock_bit(o):
+    o = _strip(o)
+    if o[0] == "const" and o[2] is not None:
+        try: return int(o[2]) == 1 << 63
+        except (TypeError, ValueError): return False
+    return o[0] == "bin" and o[1] == "Shl" and is_const(1)(simplify(o[2])) and is_const(63)(simplify(o[3]))
+
+def _locks(o):
+    """value is `x | (1 << 63)`"""
+    o = _strip(o)
+    return o[0] == "bin" and o[1] == "BitOr" and (_is_lock_bit(o[2]) or _is_lock_bit(o[3]))
+
+def spmc_head_protocol(ctx):
+    cas = A("compare_exchange(_weak)?")
+    HEAD = Q + "::BlockPtr.0"
+    PACK = Call(re.escape(Q) + "::BlockPtr::pack", transitive=False)
+    for fn in ("pop", "local_pop", "bulk_pop"):
+        fid = Q + "::Queue::" + fn
+        f = ctx.fn("R-ENUM", fid, fn + "/head-protocol")
+        if f is None: continue
+        _CUR_F[0] = f
+        an = ctx.an
+        cs = sorted(an.sites(f, Call(cas, on=HEAD, transitive=False), "must"))
+        stores = sorted(an.sites(f, Call(A("store"), on=HEAD, transitive=False), "must"))
+        ok_edges = ctx.edges(f, variant_of_call(cas, "Ok"))
+        if len(cs) != 1 or not stores or not ok_edges:
+            ctx.missing("R-ENUM", fid, fn + "/head-protocol", "head CAS sites=%d head stores=%d CAS-Ok edges=%d" % (len(cs), len(stores), len(ok_edges))); continue
+        newv = simplify(trace_operand(f, f.node(cs[0])["args"][2]))
+        alts = [simplify(a) for a in newv[2]] if newv[0] == "phi" else [newv]
+        lock_alts = [a for a in alts if _locks(a)]
+        pack_alts = [a for a in alts if a[0] == "call" and (a[2] or "").endswith("BlockPtr::pack")]
+        shape = len(alts) == 2 and len(lock_alts) == 1 and len(pack_alts) == 1
+        ctx.ob("R-ENUM", fid, fn + "/new-head-is-pack-or-lock", shape, "the value %s CASes into head is either pack(block, next id) or the old head with the transition-lock bit" % fn if shape else
+               "%s CASes %s into head (expected: pack(..) on the in-block path, head | 1<<63 on the block-end path)" % (fn, fmt_origin(newv)[:200]), f.where(cs[0]))
+        if not shape: continue
+        # which edge decides lock vs pack: the definition points of the two alternatives
+        packs = sorted(an.sites(f, PACK, "must"))
+        pre = an.reach(f, [Point(0, 0)], blocked=set(cs))
+        pre_packs = [p0 for p0 in packs if p0 in pre]
+        if fn in ("pop", "local_pop"):
+            last = lambda a: cmp_matches(a, "Eq", lambda o: _unpack_field(o, 1), lambda o: _strip(o)[0] == "const" and "BLOCK_MASK" in (_strip(o)[1] or "") or is_const(31)(o))
+            notlast = lambda a: cmp_matches(a, "Ne", lambda o: _unpack_field(o, 1), lambda o: _strip(o)[0] == "const")
+            why_lock = "id == BLOCK_MASK"
+        else:
+            # bulk_pop: new_id == 0  (new_id = 0 when the block is not the tail block, else push_id)
+            last = lambda a: a.kind == "cmp" and a.op == "Eq" and is_const(0)(a.b) and not _unpack_field(a.a, 1)
+            notlast = lambda a: a.kind == "cmp" and a.op == "Ne" and is_const(0)(a.b) and not _unpack_field(a.a, 1)
+            why_lock = "new_id == 0"
+        # (1) commit arithmetic of the in-block path
+        if fn in ("pop", "local_pop"):
+            okp = False
+            for p0 in pre_packs:
+                a0, a1 = [simplify(trace_operand(f, x)) for x in f.node(p0)["args"][:2]]
+                b = _strip(a1)
+                okp = _unpack_field(a0, 0) and b[0] == "bin" and b[1].startswith("Add") and _unpack_field(b[2], 1) and is_const(1)(simplify(b[3]))
+            ctx.ob("R-ENUM", fid, fn + "/claim-advances-by-one", okp, "the in-block claim CASes head to pack(block, id + 1) of the (block, id) it unpacked: the next taker starts at the next slot" if okp else
+                   "%s does not CAS head to pack(block, id + 1): the slot it reads is claimed again by the next taker (a task handed out twice) or a slot is skipped (a task never handed out)" % fn,
+                   f.where(pre_packs[0]) if pre_packs else f.where())
+        # (2) the lock bit is taken exactly on the block-end path
+        if pre_packs:
+            ctx.guarded(fid, lambda g: pre_packs, notlast, fn + "/pack-only-inside-block", "the plain pack(..) head is used only when the claim stays inside the block (%s is false)" % why_lock,
+                        rule="R-ENUM", pred_label="edge `%s` is false" % why_lock)
+        lock_defs = [pt for pt in f.points() if not f.is_term(pt) and f.node(pt).get("s") == "=" and pt in pre and _locks(trace_rvalue(f, f.node(pt)["rv"], 0, pt))]
+        if not lock_defs:
+            ctx.missing("R-ENUM", fid, fn + "/lock-only-at-block-end", "no `head | (1 << 63)` assignment before the CAS")
+        else:
+            ctx.guarded(fid, lambda g: lock_defs, last, fn + "/lock-only-at-block-end", "the transition lock is requested only on the block-end path (%s)" % why_lock,
+                        rule="R-ENUM", pred_label="edge `%s` is true" % why_lock)
+        # (3) lock / unlock pairing after a successful claim
+        post = [Point(tb, 0) for _, tb, _ in ok_edges]
+        post_reach = an.reach(f, post)
+        post_last = [(bi, tb, lab) for (bi, tb, lab) in ctx.edges(f, last) if Point(bi, 0) in post_reach]
+        post_stores = [x for x in stores if x in post_reach]
+        if not post_last or not post_stores:
+            ctx.missing("R-PAIR", fid, fn + "/lock-released", "post-claim `%s` edges=%d head stores=%d" % (why_lock, len(post_last), len(post_stores)))
+        else:
+            starts = [Point(tb, 0) for _, tb, _ in post_last]
+            r = an.reach(f, starts, blocked=set(post_stores))
+            bad = [x for x in f.ret_points() if x in r]
+            ctx.ob("R-PAIR", fid, fn + "/lock-released", not bad, "a claim that took the transition lock always stores a new (unlocked) head before it returns" if not bad else
+                   "%s can return from the block-end path without storing head: the lock bit stays set, every later CAS (which expects an unlocked head) fails - the queue never hands out a task again" % fn,
+                   f.where(post_stores[0]), detail=an.fmt_path(f, an.path(f, starts, bad, blocked=set(post_stores))) if bad else None)
+            blk, good = ctx.edge_blocker(f, last)
+            good_post = set(e for e in good if Point(e[0], 0) in post_reach)
+            blk2 = lambda p, q, lab: f.is_term(p) and (p.bb, q.bb) in good_post
+            r2 = an.reach(f, post, blocked_edges=blk2)
+            bad2 = [x for x in post_stores if x in r2]
+            ctx.ob("R-PAIR", fid, fn + "/store-only-under-lock", not bad2, "head is overwritten with a plain store only by the taker that holds the transition lock" if not bad2 else
+                   "%s stores to head on a path that did not take the transition lock (%s false): concurrent takers' claims are overwritten - tasks handed out twice or lost" % (fn, why_lock),
+                   f.where(bad2[0]) if bad2 else f.where(post_stores[0]))
+        # (4) what is stored: the old head only when nothing was there (restore), `next` only when the block is used up
+        nxt = [x for x in post_stores if is_call_result(A("load"), Q + "::BlockNode.next", f)(simplify(trace_operand(f, f.node(x)["args"][1])))]
+        if not nxt:
+            ctx.missing("R-EXIT", fid, fn + "/advance-to-next-only-if-published", "no `head.store(block.next.load())`")
+        else:
+            strict = lambda a: (a.kind == "cmp" and ((a.op == "Lt" and is_push_index(a.b)) or (a.op == "Gt" and is_push_index(a.a))))
+            ctx.guarded(fid, lambda g: nxt, strict, fn + "/advance-to-next-only-if-published",
+                        "head moves on to block.next only after the last slot of the block was seen published (pop_index < push_index): before that `next` may still be null", rule="R-EXIT",
+                        pred_label="edge `pop_index < push_index`")
+    # local_pop: a claimed slot that turns out to be unpublished (a stealer's stale claim was honoured first) is given up by moving
+    # the producer's own tail.index past it - otherwise the next push writes a task into a slot that head has already passed
+    fid = Q + "::Queue::local_pop"
+    f = ctx.prog.fn(fid)
+    if f is not None:
+        an = ctx.an
+        ok_edges = ctx.edges(f, variant_of_call(cas, "Ok"))
+        post_reach = an.reach(f, [Point(tb, 0) for _, tb, _ in ok_edges])
+        unpub = lambda a: a.kind == "cmp" and ((a.op == "Ge" and is_push_index(a.b)) or (a.op == "Le" and is_push_index(a.a)))
+        es = [(bi, tb, lab) for (bi, tb, lab) in ctx.edges(f, unpub) if Point(bi, 0) in post_reach]
+        TS = Call(A("store"), on=Q + "::Position.index", on_any=Q + "::Queue.tail", transitive=False)
+        give_up = an.sites(f, TS, "must") | an.sites(f, Call(A("store"), on=HEAD, transitive=False), "must")
+        if not es or not an.sites(f, TS, "must"):
+            ctx.missing("R-PAIR", fid, "local_pop/unpublished-claim-given-up", "post-claim `pop_index >= push_index` edges=%d tail.index stores=%d" % (len(es), len(an.sites(f, TS, "must"))))
+        else:
+            starts = [Point(tb, 0) for _, tb, _ in es]
+            r = an.reach(f, starts, blocked=give_up)
+            bad = [x for x in f.ret_points() if x in r]
+            ctx.ob("R-PAIR", fid, "local_pop/unpublished-claim-given-up", not bad, "a claim of an unpublished slot is always given up: head restored (block-end path) or tail.index moved past the slot" if not bad else
+                   "local_pop can return after claiming an unpublished slot without restoring head or advancing tail.index: the next push stores a task in a slot that head already passed - it is never handed out",
+                   f.where(sorted(an.sites(f, TS, "must"))[0]))
+            okv = True
+            for pt in sorted(an.sites(f, TS, "must")):
+                v = _strip(trace_operand(f, f.node(pt)["args"][1]))
+                okv &= v[0] == "bin" and v[1].startswith("Add") and is_push_index(simplify(v[2])) and is_const(1)(simplify(v[3]))
+            ctx.ob("R-ENUM", fid, "local_pop/skip-moves-tail-by-one", okv, "the given-up slot is skipped by exactly one: tail.index = push_index + 1" if okv else
+                   "local_pop does not store push_index + 1 into tail.index when it gives up a claimed slot", f.where(sorted(an.sites(f, TS, "must"))[0]))
+    # bulk_pop: after the locked claim the head is advanced to `next` iff the copied range ends at the block end
+    fid = Q + "::Queue::bulk_pop"
+    f = ctx.prog.fn(fid)
+    if f is not None:
+        an = ctx.an
+        cs = an.sites(f, Call(cas, on=HEAD, transitive=False), "must")
+        post = an.reach(f, [q for c in cs for q in an.after(f, c)])
+        stores = [x for x in sorted(an.sites(f, Call(A("store"), on=HEAD, transitive=False), "must")) if x in post]
+        nxt = [x for x in stores if is_call_result(A("load"), Q + "::BlockNode.next", f)(simplify(trace_operand(f, f.node(x)["args"][1])))]
+        pk = [x for x in stores if simplify(trace_operand(f, f.node(x)["args"][1]))[0] == "call" and (simplify(trace_operand(f, f.node(x)["args"][1]))[2] or "").endswith("BlockPtr::pack")]
+        ends = [simplify(trace_operand(f, f.node(pt)["args"][2])) for pt in sorted(an.sites(f, Call(re.escape(Q) + "::BlockNode::copy_to_bulk", transitive=False), "must"))]
+        end_alts = set()
+        for e in ends:
+            end_alts |= set(simplify(a) for a in e[2]) if e[0] == "phi" else {e}
+            end_alts.add(e)
+        def masked_end(o):
+            o = _strip(o)
+            return o[0] == "bin" and o[1] == "BitAnd" and any(_strip(x) in end_alts or simplify(x) in end_alts for x in (o[2], o[3]))
+        aligned = lambda a: cmp_matches(a, "Eq", masked_end, is_const(0))
+        unaligned = lambda a: cmp_matches(a, "Ne", masked_end, is_const(0))
+        if not nxt or not pk or not ctx.edges(f, aligned):
+            ctx.missing("R-ENUM", fid, "bulk_pop/next-iff-range-ends-block", "head.store(next)=%d head.store(pack)=%d `(end & BLOCK_MASK) == 0` edges=%d" % (len(nxt), len(pk), len(ctx.edges(f, aligned))))
+        else:
+            ctx.guarded(fid, lambda g: nxt, aligned, "bulk_pop/next-iff-range-ends-block", "after a locked claim head moves to the next block only when the copied range ends at the block end",
+                        rule="R-ENUM", pred_label="edge `(end & BLOCK_MASK) == 0`")
+            ctx.guarded(fid, lambda g: pk, unaligned, "bulk_pop/same-block-iff-range-ends-inside", "after a locked claim head stays in the block (pack(block, end id)) only when the range ends inside it",
+                        rule="R-ENUM", pred_label="edge `(end & BLOCK_MASK) != 0`")
+            okp = all(masked_end(simplify(trace_operand(f, f.term(simplify(trace_operand(f, f.node(x)["args"][1]))[1])["args"][1]))) for x in pk)
+            ctx.ob("R-ENUM", fid, "bulk_pop/same-block-head-is-range-end", okp, "the in-block head stored after a locked claim is pack(block, end & BLOCK_MASK): the next taker starts where the copied range ended" if okp else
+                   "bulk_pop stores a head that is not the end of the range it copied", f.where(pk[0]))
+    # push: a new block is linked exactly when the next index is block-aligned, and then both links are written
+    f = ctx.fn("R-ENUM", Q + "::Queue::push", "push/new-block-iff-aligned")
+    if f is not None:
+        an = ctx.an
+        NEWB = Call(re.escape(Q) + "::BlockNode::new", transitive=False)
+        def masked_next(o):
+            o = _strip(o)
+            return o[0] == "bin" and o[1] == "BitAnd"
+        aligned = lambda a: cmp_matches(a, "Eq", masked_next, is_const(0))
+        if not an.sites(f, NEWB, "must") or not ctx.edges(f, aligned):
+            ctx.missing("R-ENUM", f.id, "push/new-block-iff-aligned", "BlockNode::new sites=%d `(new_index & BLOCK_MASK) == 0` edges=%d" % (len(an.sites(f, NEWB, "must")), len(ctx.edges(f, aligned))))
+        else:
+            ctx.guarded(f.id, NEWB, aligned, "push/new-block-iff-aligned", "push allocates a block only when the next index starts a new block", rule="R-ENUM", pred_label="edge `(new_index & BLOCK_MASK) == 0`")
+            ctx.must_follow(f.id, None, atomic("store", Q + "::BlockNode.next", transitive=False), "push/aligned-links-next", "when the next index starts a new block the old block's `next` is set (takers follow it)",
+                            rule="R-ENUM", edge=aligned, edge_label="edge `(new_index & BLOCK_MASK) == 0`")
+            ctx.must_follow(f.id, None, Call(A("store"), on=Q + "::Position.block", on_any=Q + "::Queue.tail", transitive=False), "push/aligned-moves-tail-block",
+                            "when the next index starts a new block the producer's tail.block moves to it (the next push writes into the new block)", rule="R-ENUM", edge=aligned, edge_label="edge `(new_index & BLOCK_MASK) == 0`")
 
 def check(ctx):
     cas = A("compare_exchange(_weak)?")
@@ -81,7 +280,11 @@ def check(ctx):
         # `pop_index` computed before the CAS describes the previous life of the block
         ctx.guarded(fid, Call(A("load"), on=Q + "::BlockNode.start", transitive=False), variant_of_call(cas, "Ok"), fn + "/start-read-behind-claim",
                     "%s reads block.start only after its CAS on head claimed the slots" % fn, pred_label="edge `head.compare_exchange_weak` is Ok")
-        ctx.guarded(fid, rd, published, fn + "/read-behind-publish", "%s reads a slot only behind an observation that it is published (index < tail.index)" % fn,
+        rng = set()
+        for pt in ctx.an.sites(f, Call(re.escape(Q) + "::BlockNode::copy_to_bulk", transitive=False), "must"):
+            e = simplify(trace_operand(f, f.node(pt)["args"][2])); rng.add(e)
+            if e[0] == "phi": rng |= set(simplify(x) for x in e[2])
+        ctx.guarded(fid, rd, published_strict(rng), fn + "/read-behind-publish", "%s reads a slot only behind an observation that it is published (slot index < tail.index; exclusive range end <= tail.index)" % fn,
                     pred_label="edge `pop_index < push_index` / wait-loop exit")
         # pairing
         mark = MARK
@@ -266,6 +469,7 @@ def check(ctx):
                        "%s decrements `used` by n but does not test `old == n`: the last reader is not detected (block leaked) or detected twice" % g.id, g.where(pt))
         if not n_prim:
             ctx.missing("R-PAIR", Q + "::BlockNode::mark_slots_read", "last-reader-detect", "neither mark_slots_read nor a direct `used.fetch_sub` in the takers")
+    spmc_head_protocol(ctx)
     # no task dropped on a normal path
     for fid in (PUSH, Q + "::Queue::pop", Q + "::Queue::local_pop", Q + "::Steal::steal_into", Q + "::Local::push_back", Q + "::Local::pop"):
         f = ctx.fn("R-LIN", fid, "no-task-dropped")
